@@ -83,6 +83,10 @@ var guardTable = []guardRow{
 	// ---- client ----
 	{"client/lib", "WebRTCPeer", "lastReceive", protMutex, "WebRTCPeer.mu", false, nil, "struct comment: 'mu protects the following'"},
 	{"client/lib", "WebRTCPeer", "bytesLogger", protMutex, "WebRTCPeer.mu", false, nil, "replaced by Peers.Pop while callbacks run"},
+	{"client/lib", "Peers", "bytesLogger", protImmutable, "", false, []string{"client/lib.(*Transport).Dial"}, "installed by Dial before connectLoop and the dial loop start; read by Pop"},
+	{"client/lib", "Peers", "Tongue", protImmutable, "", false, nil, "set by NewPeers"},
+	{"client/lib", "Peers", "snowflakeChan", protImmutable, "", false, nil, "set by NewPeers"},
+	{"client/lib", "Peers", "melt", protImmutable, "", false, nil, "set by NewPeers; closed, never replaced"},
 	{"client/lib", "Peers", "activePeers", protMutex, "Peers.collectLock", true, nil, "list of live peers"},
 	{"client/lib", "BrokerChannel", "natType", protMutex, "BrokerChannel.lock", false, nil, "updated by the NAT probe goroutine"},
 	// ---- proxy ----
@@ -368,7 +372,15 @@ func isFreshBase(fn *ssa.Function, base ssa.Value, at ssa.Instruction) bool {
 		break
 	}
 	al, ok := root.(*ssa.Alloc)
-	if !ok || al.Parent() != fn {
+	if !ok {
+		// the pointer lives in a local variable that a closure captures (m := new(T); ...; go func() { m... }()):
+		// the object is fresh until the variable - or a value loaded from it - is handed on
+		if fresh, handled := freshThroughCell(fn, root, at); handled {
+			return fresh
+		}
+		return false
+	}
+	if al.Parent() != fn {
 		return false
 	}
 	if al.Referrers() == nil {
@@ -397,6 +409,142 @@ func isFreshBase(fn *ssa.Function, base ssa.Value, at ssa.Instruction) bool {
 		}
 	}
 	return true
+}
+
+// freshThroughCell: root is a load of a local pointer variable (a cell that is an
+// Alloc of fn) which is assigned exactly once, a fresh allocation of fn. The
+// object is unpublished at `at` if nothing that hands the cell or a value loaded
+// from it to someone else (closure creation, call argument, store, return, send)
+// can execute before `at`.
+func freshThroughCell(fn *ssa.Function, root ssa.Value, at ssa.Instruction) (fresh, handled bool) {
+	ld, ok := root.(*ssa.UnOp)
+	if !ok || ld.Op != token.MUL {
+		return false, false
+	}
+	cell, ok := ld.X.(*ssa.Alloc)
+	if !ok || cell.Parent() != fn || cell.Referrers() == nil {
+		return false, false
+	}
+	var obj *ssa.Alloc
+	nStores := 0
+	var pubs []ssa.Instruction
+	for _, r := range *cell.Referrers() {
+		switch x := r.(type) {
+		case *ssa.Store:
+			if x.Addr == ssa.Value(cell) {
+				nStores++
+				obj, _ = x.Val.(*ssa.Alloc)
+			} else {
+				pubs = append(pubs, x)
+			}
+		case *ssa.UnOp:
+			// a loaded copy of the pointer: field/element addressing keeps it private, anything else hands it on
+			if x.Referrers() != nil {
+				for _, u := range *x.Referrers() {
+					switch u.(type) {
+					case *ssa.FieldAddr, *ssa.IndexAddr, *ssa.DebugRef:
+					default:
+						pubs = append(pubs, u)
+					}
+				}
+			}
+		case *ssa.DebugRef:
+		default:
+			pubs = append(pubs, r)
+		}
+	}
+	if nStores != 1 || obj == nil || obj.Parent() != fn {
+		return false, false
+	}
+	// the object itself must not be handed on either, other than into the cell
+	if obj.Referrers() != nil {
+		for _, r := range *obj.Referrers() {
+			switch x := r.(type) {
+			case *ssa.FieldAddr, *ssa.IndexAddr, *ssa.DebugRef, *ssa.UnOp:
+			case *ssa.Store:
+				if x.Val == ssa.Value(obj) && x.Addr != ssa.Value(cell) {
+					pubs = append(pubs, x)
+				}
+			default:
+				pubs = append(pubs, r)
+			}
+		}
+	}
+	for _, pub := range pubs {
+		if pub == at {
+			continue
+		}
+		if canFollowAvoiding(pub, at, obj) {
+			return false, true
+		}
+	}
+	return true, true
+}
+
+// handedToGoroutineBefore: a go statement of the accessing function that receives
+// the accessed object (as an argument, or captured by the literal it starts) and
+// can execute before the access. A start-up write is "before concurrency" only
+// while no such goroutine exists.
+func handedToGoroutineBefore(a access) ssa.Instruction {
+	base := a.Base
+	for {
+		switch x := base.(type) {
+		case *ssa.FieldAddr:
+			base = x.X
+			continue
+		case *ssa.IndexAddr:
+			base = x.X
+			continue
+		}
+		break
+	}
+	obj := strip(base)
+	same := func(v ssa.Value) bool {
+		v = strip(v)
+		if v == obj {
+			return true
+		}
+		// both loaded from the same local variable
+		if l1, ok1 := v.(*ssa.UnOp); ok1 {
+			if l2, ok2 := obj.(*ssa.UnOp); ok2 && l1.X == l2.X {
+				return true
+			}
+			if l1.X == obj {
+				return true
+			}
+		}
+		if l2, ok2 := obj.(*ssa.UnOp); ok2 && l2.X == v {
+			return true // the variable itself is captured
+		}
+		return false
+	}
+	var found ssa.Instruction
+	allInstrs(a.Fn, func(in ssa.Instruction) {
+		g, ok := in.(*ssa.Go)
+		if !ok || found != nil {
+			return
+		}
+		uses := false
+		for _, arg := range g.Call.Args {
+			if same(arg) {
+				uses = true
+			}
+		}
+		if mc, isMC := g.Call.Value.(*ssa.MakeClosure); isMC {
+			for _, b := range mc.Bindings {
+				if same(b) {
+					uses = true
+				}
+			}
+		}
+		if g.Call.IsInvoke() && same(g.Call.Value) {
+			uses = true
+		}
+		if uses && canFollow(g, a.Instr) {
+			found = g
+		}
+	})
+	return found
 }
 
 // checkGuardRows decides the rows whose key matches sel (nil: all). scope is
@@ -446,7 +594,7 @@ func (c *Ctx) checkGuardRows(rule string, rows []guardRow, scope []*ssa.Function
 					okAcc = true
 				case a.Kind != accRead && mode >= heldWrite:
 					okAcc = true
-				case a.Kind != accRead && contains(row.Startup, fnName):
+				case a.Kind != accRead && contains(row.Startup, fnName) && handedToGoroutineBefore(a) == nil:
 					okAcc = true
 				default:
 					why = fmt.Sprintf("%s of %s (%s) without %s; locks held: %s; entry lockset of %s: %s", a.Kind, row.key(), a.What, row.Lock, le.StateAt(a.Instr), fnName, le.Entry(a.Fn))
@@ -458,8 +606,10 @@ func (c *Ctx) checkGuardRows(rule string, rows []guardRow, scope []*ssa.Function
 					why = fmt.Sprintf("plain %s of %s (%s), which is updated with sync/atomic elsewhere", a.Kind, row.key(), a.What)
 				}
 			case protImmutable:
-				if a.Kind == accRead || fresh || contains(row.Startup, fnName) {
+				if a.Kind == accRead || fresh || (contains(row.Startup, fnName) && handedToGoroutineBefore(a) == nil) {
 					okAcc = true
+				} else if g := handedToGoroutineBefore(a); contains(row.Startup, fnName) && g != nil {
+					why = fmt.Sprintf("%s of %s (%s) in the start-up function, but after the object was handed to the goroutine started at %s: the goroutine can read the field while it is being set", a.Kind, row.key(), a.What, p.instrPos(g))
 				} else {
 					why = fmt.Sprintf("%s of %s (%s) after publication; the field is treated as immutable once shared", a.Kind, row.key(), a.What)
 				}
